@@ -47,7 +47,10 @@ fn verdict_(o: &Outcome, shape: &Option<String>, loc: &str, src: &str, io_module
         Outcome::Err(ErrKind::HostPanic, m) => Some((hostpanic_key(m, loc), format!("host panic: {} at {}", m, loc))),
         Outcome::Err(ErrKind::Forbidden, m) => {
             let head: String = m.split(|c: char| c.is_ascii_digit() || c == '`' || c == ':').next().unwrap_or("").trim().to_string();
-            let feature = if io_module {
+            let family = src.lines().rev().find_map(|l| l.strip_prefix("// family:"));
+            let feature = if let Some(f) = family {
+                f.to_string()
+            } else if io_module {
                 "import-of-IO-typed-module-under-run_io".to_string()
             } else if src.contains("do ") || src.contains("seq ") {
                 "do-expression-with-non-monadic-flat_map".to_string()
@@ -56,7 +59,17 @@ fn verdict_(o: &Outcome, shape: &Option<String>, loc: &str, src: &str, io_module
             };
             Some((format!("internal-error:{}:{}", head.trim_end_matches(|c: char| c == '{' || c == ' '), feature), format!("internal failure reported by the VM/compiler: {}", m)))
         }
-        Outcome::Ok(..) => shape.as_ref().map(|s| ("value-shape".to_string(), s.clone())),
+        Outcome::Ok(..) => shape.as_ref().map(|s| {
+            let family = src.lines().rev().find_map(|l| l.strip_prefix("// family:"));
+            (
+                match family {
+                    Some(f) => format!("value-shape:{}", f),
+                    None if src.is_empty() => "value-shape".to_string(),
+                    None => format!("value-shape:{:016x}", fnv(src)),
+                },
+                s.clone(),
+            )
+        }),
         _ => None,
     }
 }
@@ -321,6 +334,51 @@ fn binding_form_programs() -> Vec<String> {
                 break;
             }
         }
+    }
+    // higher-rank function types: every pair (declared parameter type of the callee P, type Q of
+    // the value the caller really passes) x result type x position in which `callee` is used at
+    // `Q -> R`. Only Q at least as polymorphic as P is sound; whatever the checker accepts runs.
+    {
+        // (type text, a value of that type, how a function body uses a parameter h of that type, for result type Int / String)
+        let ps: Vec<(&str, &str, &str, &str)> = vec![
+            ("Int -> Int", "(\\x -> x #Int+ 1)", "h 41", "let _ = h 1\n    \"s\""),
+            ("forall a . a -> a", "(\\x -> x)", "let k = h (\\y -> y #Int+ 1)\n    k (h 41)", "let _ = h 1\n    h \"str\""),
+            ("forall a . a -> Int", "(\\_ -> 7)", "h \"s\" #Int+ h 1", "let _ = h h\n    \"s\""),
+            ("String -> String", "(\\s -> s)", "let _ = h \"s\"\n    1", "h \"str\""),
+            ("forall a . a -> a -> a", "(\\x _ -> x)", "h 1 2", "h \"a\" \"b\""),
+        ];
+        for (p_ty, _, use_int, use_str) in &ps {
+            for (q_ty, q_val, _, _) in &ps {
+                for (r_ty, body) in [("Int", use_int), ("String", use_str)] {
+                    let callee = format!("let callee h : ({}) -> {} =\n    {}\n", p_ty, r_ty, body);
+                    let positions = vec![
+                        format!("let apply k : (({}) -> {}) -> {} = k {}\napply callee", q_ty, r_ty, r_ty, q_val),
+                        format!("let c : ({}) -> {} = callee\nc {}", q_ty, r_ty, q_val),
+                        format!("let r : {{ f : ({}) -> {} }} = {{ f = callee }}\nr.f {}", q_ty, r_ty, q_val),
+                        format!("let other k : ({}) -> {} = k {}\n(if True then callee else other) {}", q_ty, r_ty, if *r_ty == *"Int" { "1".to_string() } else { "\"o\"".to_string() }, q_val)
+                            .replace("= k 1", "=\n    let _ = k\n    1")
+                            .replace("= k \"o\"", "=\n    let _ = k\n    \"o\""),
+                        format!("let apply2 k v : (({}) -> {}) -> ({}) -> {} = k v\napply2 callee {}", q_ty, r_ty, q_ty, r_ty, q_val),
+                    ];
+                    for (pi, pos) in positions.into_iter().enumerate() {
+                        out.push(format!("{}{}{}\n// family:rank2:callee-takes({}):caller-passes({}):result-{}:position-{}\n", head, callee, pos, p_ty, q_ty, r_ty, pi));
+                    }
+                }
+            }
+        }
+    }
+    // annotated records: the literal's field order differs from the annotation's
+    for lit in ["{ y = \"a\", x = 1 }", "{ x = 1, y = \"a\" }"] {
+        let fam = "// family:annotated-record-literal-with-fields-in-another-order\n";
+        out.push(format!("{}let r : {{ x : Int, y : String }} = {}\nr.x\n{}", head, lit, fam));
+        out.push(format!("{}let r : {{ x : Int, y : String }} = {}\nr.y\n{}", head, lit, fam));
+        out.push(format!("{}let f r : {{ x : Int, y : String }} -> Int = r.x\nf {}\n{}", head, lit, fam));
+        out.push(format!("{}let b = {{ x = 2, y = \"b\" }}\nlet r : {{ x : Int, y : String }} = {{ y = \"a\", .. b }}\nr.x\n{}", head, fam));
+        out.push(format!("{}let g r : {{ y : String, x : Int }} -> String = r.y\ng {}\n{}", head, lit, fam));
+    }
+    // recursive value groups whose members are inspected while the group is being built
+    for probe in ["if b.flag then { x = 1 } else { x = 2 }", "{ x = (if b.flag then 1 else 2) }", "{ x = b.n }", "match b.v with\n    | A -> { x = 1 }\n    | C _ _ -> { x = 2 }"] {
+        out.push(format!("{}rec\nlet a =\n    {}\nlet b = {{ flag = True, n = 3, v = A, back = \\_ -> a.x }}\na.x\n// family:recursive-value-group-member-inspected-while-the-group-is-built\n", head, probe));
     }
     // record patterns whose alternatives name different fields
     for (a, b) in [("{ x = 2 }", "{ y = 2 }"), ("{ x = 1 }", "{ x = 1, y = 3 }"), ("{ y = 2 }", "{ x }"), ("{ x, y = 9 }", "{ y }")] {
